@@ -366,6 +366,37 @@ fn worker_thread(shared: Arc<Shared>, thread: usize, ops: Vec<COp>, barrier: Arc
         state.store(0, Ordering::SeqCst);
     };
     for (index, op) in ops.iter().enumerate() {
+        if let COp::Read { kind, keys } = op {
+            if matches!(kind, ReadKind::MultiGetIter | ReadKind::MultiGetMapIter) && keys.len() >= 2 {
+                // consumed step by step: every next() is recorded as a read of its own (a value handed out by a later next()
+                // must be current when that next() is called), with a short pause between the steps
+                let keys64: Vec<u64> = keys.iter().map(|k| *k as u64).collect();
+                let cache = &shared.cache;
+                state.store(1, Ordering::SeqCst);
+                let result = catch_unwind(AssertUnwindSafe(|| {
+                    let mut recs = Vec::new();
+                    let refs: Vec<&u64> = keys64.iter().collect();
+                    let mut plain = if *kind == ReadKind::MultiGetIter { Some(cache.multi_get_iterator(refs.clone())) } else { None };
+                    let mut mapped = if *kind == ReadKind::MultiGetMapIter { Some(cache.multi_get_map_iterator(refs, |value| value)) } else { None };
+                    for k in keys.iter() {
+                        let start = inst.next_stamp();
+                        let value = match (&mut plain, &mut mapped) { (Some(iterator), _) => iterator.next(), (_, Some(iterator)) => iterator.next(), _ => None };
+                        let end = inst.next_stamp();
+                        match value { Some(value) => recs.push((start, end, *k, value)), None => break }
+                        for _ in 0..3 { std::thread::yield_now(); }
+                    }
+                    recs
+                }));
+                state.store(0, Ordering::SeqCst);
+                if let Some(sched) = &shared.sched { sched.operation_done(); }
+                match result {
+                    Ok(recs) => for (start, end, k, value) in recs { local.push(Rec { thread, index, start, end, outcome: Outcome::Read { keys: vec![k], values: vec![value] } }); },
+                    Err(_) => local.push(Rec { thread, index, start: inst.next_stamp(), end: inst.next_stamp(), outcome: Outcome::Panicked(inst.panics().last().cloned().unwrap_or_default()) }),
+                }
+                shared.progress.fetch_add(1, Ordering::AcqRel);
+                continue;
+            }
+        }
         let start = inst.next_stamp();
         state.store(1, Ordering::SeqCst);
         let cache = &shared.cache;
